@@ -9,6 +9,7 @@ import (
 	"verif/harness/sx"
 
 	"github.com/lyraproj/pcore/px"
+	"github.com/lyraproj/semver/semver"
 )
 
 // Implementation-only op `@embed VARIANT N K`: structs that EMBED other structs (reflect.StructOf cannot build these, so the
@@ -51,7 +52,12 @@ type EmbDeepT struct {
 
 var embCounter int64
 
-func execEmbed(c px.Context, args []sx.Sexp) core.Result {
+func execEmbed(c px.Context, args []sx.Sexp) core.Result { return execEmbed2(c, args, false) }
+
+// execEmbed2, viaTypeSet: op `@embedts` — the chain of struct types is registered in one call with
+// Reflector.TypeSetFromReflect (parents found by ParentType: the embedded struct in the first position, referred to by name
+// inside the type set) and px.AddTypes of the type set; everything else as `@embed`
+func execEmbed2(c px.Context, args []sx.Sexp, viaTypeSet bool) core.Result {
 	if len(args) != 3 || args[0].IsList {
 		return core.Result{Out: "bad-op", Pred: "n/a"}
 	}
@@ -94,6 +100,22 @@ func execEmbed(c px.Context, args []sx.Sexp) core.Result {
 	kind, text := safely(func() {
 		px.DoWithContext(c.Fork(), func(fc px.Context) {
 			byType := map[reflect.Type]px.ObjectType{}
+			if viaTypeSet {
+				ptrs := make([]reflect.Type, len(chain))
+				for i, rt := range chain {
+					ptrs[i] = reflect.PtrTo(rt)
+				}
+				ts := fc.Reflector().TypeSetFromReflect(fmt.Sprintf("E%d", id), semver.MustParseVersion("1.0.0"), nil, ptrs...)
+				px.AddTypes(fc, ts)
+				for _, rt := range chain {
+					ot, ok := fc.ParseType(fmt.Sprintf("E%d::%s", id, rt.Name())).(px.ObjectType)
+					if !ok {
+						panic(fmt.Errorf("the type set has no object type for %s", rt.Name()))
+					}
+					byType[rt] = ot
+				}
+				chain = nil
+			}
 			for _, rt := range chain {
 				var parent px.Type
 				if rt.NumField() > 0 && rt.Field(0).Anonymous {
@@ -105,6 +127,9 @@ func execEmbed(c px.Context, args []sx.Sexp) core.Result {
 			}
 			rt := reflect.TypeOf(v)
 			ot := byType[rt]
+			if wt, ok := px.Wrap(fc, v).PType().(px.ObjectType); !ok || !wt.Equals(ot, nil) {
+				fail("embed-roundtrip", "%#v wraps to an instance of %s, not of the type registered for it", v, px.Wrap(fc, v).PType())
+			}
 			mine := 0
 			for _, a := range ot.AttributesInfo().Attributes() {
 				if a.Container() == ot {
@@ -136,6 +161,7 @@ func genEmbed(g *core.G) {
 		for _, n := range []int{0, 4} {
 			for _, k := range []int{0, 2} {
 				g.Emit(fmt.Sprintf("@embed %s %d %d", v, n, k))
+				g.Emit(fmt.Sprintf("@embedts %s %d %d", v, n, k))
 			}
 		}
 	}
